@@ -12,6 +12,9 @@ from ..codec import F_ACT, F_NOBS, F_OBS
 ENVS = 8     # row id = t * ENVS + e   (e = 1..E)
 
 
+TOL_UNIT = 0.0
+
+
 def rid(t, e):
     return t * ENVS + e
 
@@ -38,22 +41,30 @@ def dec_row(kind, row, scale):
     r = float(np.asarray(row["reward"]).reshape(-1)[0]) * scale
     d = float(np.asarray(row["done"]).reshape(-1)[0])
     return {"t": (o or 0) // ENVS, "e": (o or 0) % ENVS, "last": (nx or 0) // ENVS,
-            "laste": (nx or 0) % ENVS, "ret": int(r) if r == int(r) else -1,
+            "laste": (nx or 0) % ENVS, "ret": int(round(r)) if abs(r - round(r)) <= TOL_UNIT else -1,
             "done": d != 0.0, "ok": bool(ok and (nx % ENVS == o % ENVS) and d in (0.0, 1.0))}
 
 
-def run(n, E, N, gexp, kind, steps, per=False, sample_every=0, seed=0):
+def run(n, E, N, gexp, kind, steps, per=False, sample_every=0, seed=0, grat=None):
     """steps: list of (rew[E], done[E]). Returns trace dict for NStep_Trace."""
     from agilerl.components.replay_buffer import (MultiStepReplayBuffer, PrioritizedReplayBuffer,
                                                    ReplayBuffer)
     from agilerl.components.sampler import Sampler
 
     torch.manual_seed(seed)
-    gamma = 0.5 ** gexp
-    nbuf = MultiStepReplayBuffer(max_size=N, n_step=n, gamma=gamma)
+    # discount: 1/2^gexp (every float operation exact) or the rational grat = (num, den), e.g. 99/100 (float32 returns are
+    # then identified with the nearest multiple of 1/den^(n-1) when they are within 2% of that unit)
+    gnum, gden = grat if grat else (1, 2 ** gexp)
+    gamma = gnum / gden
+    # the `dtype` option of the buffers (documented, float32 by default) varies with the seed: the stored returns are float32 sums
+    # of float32 rewards whatever it is
+    dt = [torch.float32, torch.float32, torch.float16, torch.bfloat16][seed % 4]
+    nbuf = MultiStepReplayBuffer(max_size=N, n_step=n, gamma=gamma, dtype=dt)
     buf1 = PrioritizedReplayBuffer(max_size=N, alpha=0.6) if per else ReplayBuffer(max_size=N)
     s1, sn = Sampler(memory=buf1), Sampler(memory=nbuf)
-    scale = 2 ** (gexp * (n - 1))
+    scale = gden ** (n - 1)
+    global TOL_UNIT
+    TOL_UNIT = 0.0 if grat is None else 0.02
     ev = []
     for t, (rew, done) in enumerate(steps, start=1):
         e = {"op": "add", "exc": "", "rew": [int(x) for x in rew], "done": [bool(x) for x in done],
@@ -96,4 +107,4 @@ def run(n, E, N, gexp, kind, steps, per=False, sample_every=0, seed=0):
                 ev.append(se)
                 break
             ev.append(se)
-    return {"cfg": {"n": n, "E": E, "N": N, "gexp": gexp, "kind": kind, "per": per}, "ev": ev}
+    return {"cfg": {"n": n, "E": E, "N": N, "gexp": gexp, "gnum": gnum, "gden": gden, "kind": kind, "per": per}, "ev": ev}
